@@ -123,6 +123,11 @@ impl Ctx {
     /// Folds disk/pool statistics into the probes and checks the release invariants that must hold
     /// once a query has finished or was dropped and the system went idle.
     pub fn quiescence_violation(&self, sources: &[&Arc<SimSourceExec>]) -> Option<Outcome> {
+        let stats: Vec<(String, Arc<crate::source::SourceStats>)> =
+            sources.iter().map(|s| (s.name.clone(), Arc::clone(&s.stats))).collect();
+        self.quiescence_violation_stats(&stats)
+    }
+    pub fn quiescence_violation_stats(&self, sources: &[(String, Arc<crate::source::SourceStats>)]) -> Option<Outcome> {
         use std::sync::atomic::Ordering::Relaxed;
         for k in [FaultKind::Create, FaultKind::Write, FaultKind::Flush, FaultKind::Finish, FaultKind::Read] {
             let n = self.disk.fired(k);
@@ -139,9 +144,10 @@ impl Ctx {
         if live > 1 {
             return Some(violation("task-leak", format!("{} background tasks are still alive after the query ended and the system went idle", live - 1)));
         }
-        for s in sources {
-            if s.live_streams() != 0 {
-                return Some(violation("input-stream-leak", format!("{} input streams of {} were never released", s.live_streams(), s.name)));
+        for (name, st) in sources {
+            let live = st.live_streams.load(Relaxed);
+            if live != 0 {
+                return Some(violation("input-stream-leak", format!("{live} input streams of {name} were never released")));
             }
         }
         if self.pool.query_reserved() != 0 {
